@@ -1188,6 +1188,11 @@ func (db *DB) allocate(txid common.Txid, count int) (*common.Page, error) {
 		if err != nil {
 			return nil, fmt.Errorf("mmap size calculation error: %w", err)
 		}
+		if nextMmapSize < db.datasz {
+			// The map is only ever replaced by a larger one, and grow()
+			// sizes the file from the map that is in effect at commit.
+			nextMmapSize = db.datasz
+		}
 		if runtime.GOOS == "windows" {
 			// nextAllocSize may not exactly match nextMmapSize.
 			// On Windows, this mismatch may cause the file size to slightly exceed maxSize,
